@@ -3,6 +3,8 @@ mod c12;
 mod c13;
 mod c14;
 mod c15;
+mod c17;
+mod http;
 mod c20;
 
 use common::*;
@@ -49,12 +51,17 @@ fn main() {
         i += 1;
     }
     // keep panics of the code under test out of the output stream
-    std::panic::set_hook(Box::new(|_| {}));
+    std::panic::set_hook(Box::new(|info| {
+        if std::env::var("RVH_QUIET_PANICS").is_err() {
+            eprintln!("panic: {info}");
+        }
+    }));
     let rep = match prop.as_str() {
         "c12" => c12::run(&opts),
         "c13" => c13::run(&opts),
         "c14" => c14::run(&opts),
         "c15" => c15::run(&opts),
+        "c17" => c17::run(&opts),
         "c20" => c20::run(&opts),
         other => {
             eprintln!("unknown property {other}");
